@@ -241,7 +241,7 @@ pub fn def() -> CheckDef {
             "get_tip is judged only when the newest immutable chunk holds a block or the database is empty",
             "a fuzzy point beyond the tip may yield an empty suffix or an error",
         ],
-        required: vec!["probe.read_blocks", "probe.get_tip", "probe.exact_existing", "probe.fuzzy", "probe.absent_exact", "probe.origin", "fault.writer_appends_mid_read", "fault.writer_finalises_chunk_mid_read"],
+        required: vec!["probe.read_blocks", "probe.get_tip", "probe.exact_existing", "probe.fuzzy", "probe.absent_exact", "probe.origin", "probe.origin_rooted_ok", "fault.writer_appends_mid_read", "fault.writer_finalises_chunk_mid_read"],
         env_nondeterminism: "database shape; writer steps (append / finalise / open next chunk) interleaved between reader steps",
     }
 }
